@@ -18,7 +18,6 @@ Inductive dgram :=
 Definition status_eqb (a b : status) : bool :=
   match a, b with
   | Listening, Listening | Returned, Returned | NotListening, NotListening => true
-  | Killed EUnicodeDecode, Killed EUnicodeDecode | Killed ETypeError, Killed ETypeError => true
   | _, _ => false
   end.
 
@@ -43,7 +42,7 @@ Record case := {
   o_ports : list N;                   (* self.ports *)
   o_payloads : list (rl byte);        (* distinct datagrams sent *)
   o_sends : list (dest * nat);        (* destination, index into o_payloads *)
-  o_status : status;                  (* how run() ended: Returned, NotListening, or the escaping exception *)
+  o_status : status;                  (* how run() ended: Returned or NotListening (no exception can escape) *)
   o_consumed : nat;                   (* number of recvfrom calls *)
 }.
 
